@@ -113,9 +113,12 @@ def rule_3(ctx):
         lits = ''.join(v.value for v in parts if isinstance(v, ast.Constant))
         ok = len(exprs) == 2 and exprs[1].endswith('.coordinate') and lits == '!' and 'sheet' in exprs[0]
     ctx.expect(ok, rc, 'cell address = sheet!coordinate', 'the address of a loaded cell is not "<sheet name>!<coordinate>"')
-    fbranch = [n for n in walk_local(rc) if isinstance(n, ast.If) and isinstance(n.test, ast.Compare)
-               and 'data_type' in ast.unparse(n.test.left) and isinstance(n.test.comparators[0], ast.Constant)
-               and n.test.comparators[0].value == 'f']
+    def _is_f(t):
+        if not (isinstance(t, ast.Compare) and len(t.ops) == 1 and isinstance(t.ops[0], ast.Eq)):
+            return False
+        a, b = t.left, t.comparators[0]
+        return any('data_type' in ast.unparse(x) and isinstance(y, ast.Constant) and y.value == 'f' for x, y in ((a, b), (b, a)))
+    fbranch = [n for n in walk_local(rc) if isinstance(n, ast.If) and _is_f(n.test)]
     if len(fbranch) != 1:
         raise AnchorMissing('read_cells: data_type == "f" branch')
     fb = fbranch[0]
@@ -176,8 +179,10 @@ def rule_3(ctx):
             return [t]
 
         def is_f_test(t):
-            return isinstance(t, ast.Compare) and len(t.ops) == 1 and isinstance(t.ops[0], ast.Eq) \
-                and 'data_type' in ast.unparse(t.left) and isinstance(t.comparators[0], ast.Constant) and t.comparators[0].value == 'f'
+            if not (isinstance(t, ast.Compare) and len(t.ops) == 1 and isinstance(t.ops[0], ast.Eq)):
+                return False
+            a_, b_ = t.left, t.comparators[0]
+            return any('data_type' in ast.unparse(x) and isinstance(y, ast.Constant) and y.value == 'f' for x, y in ((a_, b_), (b_, a_)))
         only_f = all(c.polarity and all(is_f_test(x) for x in conjuncts(c.test)) for c in conds)
         ctx.expect(only_f and len(conds) <= 1, a, "cell['cvalue'] is set for every formula cell",
                    f"cell['cvalue'] is only set under `{' and '.join(ast.unparse(c.test)[:40] for c in conds)}` while bind_cells reads it "
@@ -245,7 +250,21 @@ def rule_5(ctx):
     rm = ctx.mod('reader')
     rc = rm.func('Reader.read_cells')
     r = last_return(rc)
-    ok = r is not None and isinstance(r.value, (ast.List, ast.Tuple)) and [ast.unparse(e) for e in r.value.elts] == ['cells', 'formulae', 'ranges']
+    ok = False
+    if r is not None and isinstance(r.value, (ast.List, ast.Tuple)) and len(r.value.elts) == 3 \
+            and all(isinstance(e, ast.Name) for e in r.value.elts):
+        # role of each returned map: what is stored into it
+        roles = []
+        for e in r.value.elts:
+            stored = [a for a in walk_local(rc) if isinstance(a, ast.Assign) and any(
+                isinstance(t, ast.Subscript) and isinstance(t.value, ast.Name) and t.value.id == e.id for t in a.targets)]
+            if any(isinstance(a.value, ast.Call) and ctx.res.resolve(a.value.func, rm) == 'pkg:xltypes:XLCell' for a in stored):
+                roles.append('cells')
+            elif stored:
+                roles.append('formulae')
+            else:
+                roles.append('ranges')
+        ok = roles == ['cells', 'formulae', 'ranges']
     ctx.expect(ok, rc, 'read_cells returns [cells, formulae, ranges]', 'read_cells returns its maps in another order')
     rp = mm.func('ModelCompiler.read_and_parse_archive')
     ok = any(isinstance(n, ast.If) and 'build_code' in ast.unparse(n.test) and 'build_code()' in ast.unparse(n) for n in walk_local(rp))
